@@ -171,6 +171,16 @@ static void check_keyset(const TFheGateBootstrappingParameterSet *gb, const std:
                 for (int blk = 0; blk <= k; blk++) for (int j = 0; j < l; j++) { uint64_t r = (uint64_t) i * kpl + blk * l + j; int32_t b0; memcpy(&b0, bkb + (r * (k + 1) + blk) * N * 4, 4);
                     U msg = (U) bit * (U) gb->tgsw_params->h[j]; int32_t d = (int32_t) ((U) b0 - msg);
                     if (blk == k) { bk_rows++; if (d > -(1 << 22) && d < (1 << 22)) bk_hit++; } } }
+            // and with the key the noise of the exported key-switching rows must be there: rows whose phase is exactly the plaintext
+            // are noise-free LWE samples of the key (public combinations of them solve for it)
+            { uint64_t exact = 0, rows2 = 0;
+              for (int i = 0; i < k * N && rows2 < 4096; i++) { int bit = sk->tgsw_key->tlwe_key.key[i / N].coefs[i % N];
+                  for (int j = 0; j < t; j++) for (int h = 1; h < base; h++) { uint64_t r = ((uint64_t) i * t + j) * base + h; const char *row = ksb + r * (n + 1) * 4;
+                      U ph; memcpy(&ph, row + 4 * n, 4); for (int q = 0; q < n; q++) { int32_t a; memcpy(&a, row + 4 * q, 4); ph -= (U) a * (U) sk->lwe_key->key[q]; }
+                      U msg = (U) bit * (U) h * ((U) 1 << (32 - (j + 1) * bb)); rows2++; if (ph == msg) exact++; } }
+              out.evaluations++;
+              if (rows2 >= 64 && exact > rows2 / 2 && gb->in_out_params->alpha_min >= ldexp(1., -30))
+                  out.viol("cloud:key-switching-rows-carry-no-noise", J().s("config", cfg).u("rows_examined", rows2).u("rows_with_exactly_zero_noise", exact).d("configured_stdev", gb->in_out_params->alpha_min)); }
             // chance level 2^-9 per row; alarm when more than 2 % + 8 standard errors of the rows agree
             auto too_many = [](uint64_t hit, uint64_t rows) { double p = 1.0 / 512; return rows >= 64 && hit > 0.02 * rows + rows * p + 8 * sqrt(rows * p); };
             out.evaluations += 2;
@@ -265,7 +275,9 @@ int main(int argc, char **argv) {
         key_origin = args.i("origin", 0);
         for (int i = 0; i < count && i < (lg ? 3 : 8); i++) {
             const C &c = lg ? large[i] : cfgs[i];
-            PSet ps(c.n, 1024, c.k, c.l, c.Bgbit, c.t, c.bb, ldexp(1., -20), ldexp(1., -30));
+            // noise levels: the usual order (key switch noisier than the ring), equal, and reversed
+            const int nz = (i + (int) seed) % 3;
+            PSet ps(c.n, 1024, c.k, c.l, c.Bgbit, c.t, c.bb, nz == 0 ? ldexp(1., -20) : nz == 1 ? ldexp(1., -28) : ldexp(1., -30), nz == 0 ? ldexp(1., -30) : nz == 1 ? ldexp(1., -28) : ldexp(1., -27));
             char cfg[96]; snprintf(cfg, sizeof cfg, "%s:seed%llu", ps.name().c_str(), (unsigned long long) seed);
             check_keyset(ps.gb, cfg, 8, c.eval);
         }
